@@ -81,6 +81,9 @@ type GenSchema struct {
 	ArgSamples map[string][]string
 	Shapes     map[string]int // histogram of field shapes
 	rng        *vh.Rng
+	// GoFields: the Go type and the way of registration of every generated field other than the paginated
+	// ones (for the model of getType / getReturnType, GqlTyping/GoTypes.v)
+	GoFields []GoField
 	// NonNullNil is set (at run time) when a resolver registered with schemabuilder.NonNullable handed back a
 	// nil or left a source out: the builder must then fail the request (function.go / batch.go), which the
 	// oracle accepts as the one legitimate execution error.
@@ -246,14 +249,17 @@ func NewGenSchema(r *vh.Rng) *GenSchema {
 			}
 			fields = append(fields, f)
 			g.Shapes["struct-field:"+shapeOf(t)]++
+			g.GoFields = append(g.GoFields, GoField{Owner: fmt.Sprintf("T%d", i), Name: lowerFirst(name), Kind: "struct", Type: t})
 		}
 		// static struct members: pointer / value / slice of the union members
 		if r.Chance(25) {
 			fields = append(fields, reflect.StructField{Name: "Memb", Type: reflect.TypeOf(&MA{})})
+			g.GoFields = append(g.GoFields, GoField{Owner: fmt.Sprintf("T%d", i), Name: "memb", Kind: "struct", Type: reflect.TypeOf(&MA{})})
 			g.Shapes["struct-field:ptr-struct"]++
 		}
 		if r.Chance(15) {
 			fields = append(fields, reflect.StructField{Name: "Membs", Type: reflect.TypeOf([]MB{})})
+			g.GoFields = append(g.GoFields, GoField{Owner: fmt.Sprintf("T%d", i), Name: "membs", Kind: "struct", Type: reflect.TypeOf([]MB{})})
 			g.Shapes["struct-field:slice-struct"]++
 		}
 		t := reflect.StructOf(fields)
@@ -292,6 +298,12 @@ func NewGenSchema(r *vh.Rng) *GenSchema {
 		g.addFunc(r, q, "Query", fmt.Sprintf("root%d", j), nil, false)
 	}
 	s.Mutation().FieldFunc("noop", func() bool { return true })
+	g.GoFields = append(g.GoFields,
+		GoField{Owner: "Mutation", Name: "noop", Kind: "func", Type: reflect.TypeOf(true)},
+		GoField{Owner: "MA", Name: "a1", Kind: "struct", Type: reflect.TypeOf(int64(0))},
+		GoField{Owner: "MA", Name: "a2", Kind: "struct", Type: reflect.TypeOf((*string)(nil))},
+		GoField{Owner: "MB", Name: "b1", Kind: "struct", Type: reflect.TypeOf("")},
+		GoField{Owner: "MB", Name: "b2", Kind: "struct", Type: reflect.TypeOf([]int64{})})
 	return g
 }
 
@@ -434,6 +446,7 @@ func (g *GenSchema) addFuncTo(r *vh.Rng, o *schemabuilder.Object, owner, name st
 		return res
 	})
 	o.FieldFunc(name, fn.Interface(), opts...)
+	g.GoFields = append(g.GoFields, GoField{Owner: owner, Name: name, Kind: "func", Type: ret, NonNullable: nonNullable})
 	g.Shapes["func-ret:"+shapeOf(ret)]++
 	g.Shapes["func-form:"+form]++
 }
@@ -519,6 +532,7 @@ func (g *GenSchema) addBatch(r *vh.Rng, o *schemabuilder.Object, owner, name str
 	} else {
 		o.BatchFieldFunc(name, bfn.Interface(), opts...)
 	}
+	g.GoFields = append(g.GoFields, GoField{Owner: owner, Name: name, Kind: "batch", Type: ret, NonNullable: nonNullable})
 	g.Shapes["func-ret:"+shapeOf(ret)]++
 	g.Shapes["func-form:"+form]++
 }
